@@ -348,6 +348,47 @@ theorem rect_writeCharge (e : Ens) (i a : Nat) (x : Num) (e' : Ens) (hr : Rect e
     · cases h
   · cases h
 
+/-! ### broadcast arguments -/
+
+theorem rect_bind {α : Type} (o : Option α) (f : α → Option Ens) (e' : Ens) (P : Ens → Prop)
+    (hf : ∀ a e', f a = some e' → P e') (h : o.bind f = some e') : P e' := by
+  cases o with
+  | none => cases h
+  | some a => exact hf a e' h
+
+theorem rect_translateB (e : Ens) (x : List Num) (e' : Ens) (hr : Rect e) (h : translateB e x = some e') : Rect e' :=
+  rect_bind _ _ e' Rect (fun a e'' h' => rect_translate e a e'' hr h') h
+
+theorem rect_translateEachB (e : Ens) (vs : List (List Num)) (e' : Ens) (hr : Rect e)
+    (h : translateEachB e vs = some e') : Rect e' :=
+  rect_bind _ _ e' Rect (fun a e'' h' =>
+    rect_bind _ _ e'' Rect (fun b e3 h3 => rect_translateEach e b e3 hr h3) h') h
+
+theorem rect_rotateB (e : Ens) (m : Mat) (e' : Ens) (hr : Rect e) (h : rotateB e m = some e') : Rect e' :=
+  rect_bind _ _ e' Rect (fun a e'' h' => rect_rotate e a e'' hr h') h
+
+theorem rect_rotateEachB (e : Ens) (ms : List Mat) (e' : Ens) (hr : Rect e) (h : rotateEachB e ms = some e') : Rect e' := by
+  simp only [rotateEachB] at h
+  split at h
+  · exact rect_bind _ _ e' Rect (fun a e'' h' =>
+      rect_bind _ _ e'' Rect (fun b e3 h3 => rect_rotateEach e b e3 hr h3) h') h
+  · cases h
+
+theorem rect_setCoordsB (e : Ens) (cs : List Conf) (e' : Ens) (hr : Rect e) (h : setCoordsB e cs = some e') : Rect e' := by
+  simp only [setCoordsB] at h
+  split at h
+  · exact rect_bind _ _ e' Rect (fun a e'' h' => rect_setCoords e a e'' hr h') h
+  · cases h
+
+theorem rect_setWeightsB (e : Ens) (ws : List Num) (e' : Ens) (hr : Rect e) (h : setWeightsB e ws = some e') : Rect e' :=
+  rect_bind _ _ e' Rect (fun a e'' h' => rect_setWeights e a e'' hr h') h
+
+theorem rect_setChargesB (e : Ens) (qs : List (List Num)) (e' : Ens) (hr : Rect e) (h : setChargesB e qs = some e') : Rect e' := by
+  simp only [setChargesB] at h
+  split at h
+  · exact rect_bind _ _ e' Rect (fun a e'' h' => rect_setCharges e a e'' hr h') h
+  · cases h
+
 /-! ### one step -/
 
 theorem upd_ens (w : World) (o : Option Ens) :
@@ -427,13 +468,13 @@ theorem rect_step (w : World) (op : Op) (hr : Rect w.ens) (ho : ∀ e ∈ w.othe
   | extendGeoms gs => exact rect_upd w _ hr (fun e' h => rect_extendGeoms _ _ e' hr h)
   | scale f a => exact rect_upd w _ hr (fun e' h => rect_scale _ _ _ e' hr h)
   | invert => exact rect_upd w _ hr (fun e' h => rect_scale _ _ _ e' hr h)
-  | translate x => exact rect_upd w _ hr (fun e' h => rect_translate _ _ e' hr h)
-  | translateEach vs => exact rect_upd w _ hr (fun e' h => rect_translateEach _ _ e' hr h)
-  | rotate m => exact rect_upd w _ hr (fun e' h => rect_rotate _ _ e' hr h)
-  | rotateEach ms => exact rect_upd w _ hr (fun e' h => rect_rotateEach _ _ e' hr h)
-  | setCoords cs => exact rect_upd w _ hr (fun e' h => rect_setCoords _ _ e' hr h)
-  | setWeights ws => exact rect_upd w _ hr (fun e' h => rect_setWeights _ _ e' hr h)
-  | setCharges qs => exact rect_upd w _ hr (fun e' h => rect_setCharges _ _ e' hr h)
+  | translate x => exact rect_upd w _ hr (fun e' h => rect_translateB _ _ e' hr h)
+  | translateEach vs => exact rect_upd w _ hr (fun e' h => rect_translateEachB _ _ e' hr h)
+  | rotate m => exact rect_upd w _ hr (fun e' h => rect_rotateB _ _ e' hr h)
+  | rotateEach ms => exact rect_upd w _ hr (fun e' h => rect_rotateEachB _ _ e' hr h)
+  | setCoords cs => exact rect_upd w _ hr (fun e' h => rect_setCoordsB _ _ e' hr h)
+  | setWeights ws => exact rect_upd w _ hr (fun e' h => rect_setWeightsB _ _ e' hr h)
+  | setCharges qs => exact rect_upd w _ hr (fun e' h => rect_setChargesB _ _ e' hr h)
   | writeCoords i c => exact rect_upd w _ hr (fun e' h => rect_writeCoords _ _ _ e' hr h)
   | writeCharges i q => exact rect_upd w _ hr (fun e' h => rect_writeCharges _ _ _ e' hr h)
   | writeAtom i a xyz => exact rect_upd w _ hr (fun e' h => rect_writeAtom _ _ _ _ e' hr h)
@@ -473,6 +514,14 @@ theorem rect_step (w : World) (op : Op) (hr : Rect w.ens) (ho : ∀ e ∈ w.othe
     · exact rect_upd w _ hr (fun e' h => rect_writeCoords _ _ _ e' hr h)
     · exact hr
   | dumpKept j => simp only [step]; (repeat' split) <;> exact hr
+  | reload =>
+    simp only [step, reloaded]
+    split
+    · rename_i e he
+      split at he
+      · injection he with he; subst he; exact hr
+      · cases he
+    · exact hr
 
 /-! ### several live ensembles, kept conformers: what iteration machinery never touches -/
 
